@@ -34,6 +34,7 @@ def run(ctx):
     h4(ctx, fx, H)
     h4_fresh(ctx, fx, H)
     h5(ctx, fx, H)
+    role_preserving(ctx, fx, H, "C06.H2")
 
 
 def h1(ctx, fx, H):
@@ -304,8 +305,26 @@ def h4_fresh(ctx, fx, H):
 def h5(ctx, fx, H):
     P = H.present
     pv = vals(P)
-    # the join whose result is (part of) the returned presentation
     rets = [pv._rv(e["rv"], e["bb"], e["idx"]) for e in cfg.exit_sites(P) if e["kind"] == "Ok" and "rv" in e]
+    # exact form first (token normal form, sa/strmodel.py): some alternative of the returned text is jwt~d0~…~d(n-1)~kb for every n
+    import strmodel
+    want = strmodel.expected("serialized_sd_jwt", "hs_disclosures", tail_field="serialized_key_binding_jwt")
+    determined = []
+    for r in rets:
+        inner = r.kids[0] if r.kids else r
+        alts = peel(inner).kids if peel(inner).kind == "phi" else [inner]
+        for alt in alts:
+            fm = strmodel.forms(P, alt, ("hs_disclosures",))
+            if fm is not None and any("⟨" in x for x in fm):
+                determined.append(fm)
+    if determined:
+        if any(fm == want for fm in determined) and all(fm == want for fm in determined):
+            ctx.ok("C06.H5", P, "compact-order", "compact form = jwt~d0~…~d(n-1)~kb for every number of selected disclosures (token normal form of the returned text)")
+        else:
+            bad = [fm for fm in determined if fm != want][0]
+            ctx.finding("C06.H5", P, "compact-order", "the compact form is assembled as %r for 0, 1, 2 disclosures (expected %r)" % (bad[:3], want[:3]))
+        return
+    # the join whose result is (part of) the returned presentation
     joins = []
     for b, t in P.calls():
         if t.get("name") == "join":
@@ -343,3 +362,52 @@ def h5(ctx, fx, H):
             ctx.ok("C06.H5", P, "compact-order", "compact form = join([jwt] ++ selected disclosures ++ [kb], \"~\")", line=line)
         else:
             ctx.finding("C06.H5", P, "compact-order", "the compact form is assembled as %s (expected jwt, disclosures, kb)" % seq, line=line)
+
+
+def role_preserving(ctx, fx, H, rule):
+    """In the selection walkers the issued claims and the holder's selection are walked in lock step. Every recursive call must hand the
+    callee's claims parameter something that comes from the caller's claims parameter (or from a disclosure looked up through it) and the
+    callee's selection parameter something that comes from the caller's selection parameter: a swap (both are `&[Value]` in the list
+    walker, so it type-checks) pairs selectors with the wrong elements and silently selects nothing / the wrong disclosures."""
+    roles = {}
+    for fn in H.sel_fns:
+        fv = vals(fn)
+        jp = [i for i in range(1, fn.arg_count + 1) if "serde_json::" in (fn.local_ty(i) or "")]
+        claims = set()
+        for b, t in fn.calls():
+            n = fv.call_node(b)
+            # the issued claims are the structure in which the reserved members `_sd` / `...` are looked up
+            if t.get("name") in ("get", "index", "contains_key") and len(n.kids) > 1 and const_value(n.kids[1]) in ("_sd", "..."):
+                claims |= (common.param_roots(n.kids[0]) & set(jp))
+        if len(claims) == 1 and len(jp) == 2:
+            c = list(claims)[0]
+            roles[fn.name] = {"claims": c, "selection": [i for i in jp if i != c][0]}
+    if len(roles) < len(H.sel_fns):
+        ctx.missing(rule, "walker roles", "cannot tell the claims parameter from the selection parameter in %s" % sorted(set(f.name for f in H.sel_fns) - set(roles)))
+        return
+    n = 0
+    for fn in H.sel_fns:
+        fv = vals(fn)
+        mine = roles[fn.name]
+        for b, t in fn.calls():
+            callee = t.get("resolved")
+            if callee not in roles:
+                continue
+            n += 1
+            node = fv.call_node(b)
+            bad = None
+            for role, other in (("claims", "selection"), ("selection", "claims")):
+                pos = roles[callee][role] - 1
+                if pos >= len(node.kids):
+                    continue
+                rs = common.param_roots(node.kids[pos]) & {mine["claims"], mine["selection"]}
+                if mine[other] in rs and mine[role] not in rs:
+                    bad = "the %s argument of the recursive call comes from the caller's %s parameter" % (role, other)
+                elif role == "selection" and mine["claims"] in rs:
+                    bad = "the selection argument of the recursive call depends on the issued claims"
+            what = "recursion-roles:%s->%s" % (fn.name.split("::")[-1], callee.split("::")[-1])
+            if bad:
+                ctx.finding(rule, fn, what, "claims and selection are not walked in lock step: %s (swapped or mixed arguments): selectors are paired with the wrong elements" % bad, line=t.get("line"))
+            else:
+                ctx.ok(rule, fn, what, "claims argument derives from the claims parameter (or a disclosure reached through it), selection argument from the selection parameter", line=t.get("line"))
+    ctx.floor(rule, "recursive calls between the selection walkers", n, 4)
